@@ -703,7 +703,12 @@ func init() {
 			}
 			for kind := 0; kind <= 13; kind++ {
 				for at := 0; at <= maxAt; at++ {
-					jobs = append(jobs, Job{Dir: "z80", Harness: "VC13Loop", Params: []int{kind, at}, Label: fmt.Sprintf("VC13Loop/kind%d/at%d", kind, at), MaxForks: 256, MaxPaths: 2000})
+					for mode := 0; mode <= 2; mode++ {
+						if mode > 0 && !(kind == 0 || kind == 3 || kind == 13) {
+							continue
+						}
+						jobs = append(jobs, Job{Dir: "z80", Harness: "VC13Loop", Params: []int{kind, at, mode}, Label: fmt.Sprintf("VC13Loop/kind%d/at%d/mode%d", kind, at, mode), MaxForks: 256, MaxPaths: 2000})
+					}
 				}
 			}
 			return jobs
